@@ -74,6 +74,19 @@ func NewResponseFilterWriter(filters []ResponseFilter, gz *gzipResponseWriter) *
 // WriteHeader wraps underlying WriteHeader method and
 // compresses if filters are satisfied.
 func (r *ResponseFilterWriter) WriteHeader(code int) {
+	if r.statusCodeWritten {
+		// The decision was made with the first header. A later call (one
+		// net/http ignores anyway) must not make it again: the filters
+		// would see the Content-Encoding set here and switch the rest of
+		// the body to uncompressed bytes under a gzip label.
+		r.ResponseWriter.WriteHeader(code)
+		return
+	}
+	if code >= 100 && code < 200 && code != http.StatusSwitchingProtocols {
+		// informational header; the final one is still to come
+		r.ResponseWriter.WriteHeader(code)
+		return
+	}
 	// Determine if compression should be used or not.
 	r.shouldCompress = true
 	for _, filter := range r.filters {
